@@ -155,6 +155,7 @@ func (cls *CachedLocations) Open(ctx *Context, sys *System, name string, check b
 		// can take a long time.  We'd like to be able to open
 		// locations concurrently.
 		cls.Unlock()
+		verifPoint("CachedLocations.Open.beforeGet")
 		return cl.Get(ctx, sys, name, check)
 	}
 
@@ -244,6 +245,7 @@ func (cl *CachedLocation) Get(ctx *Context, sys *System, name string, checkExist
 	var err error
 	if loc == nil {
 		Log(INFO, ctx, "CachedLocation.Get", "name", name, "opening", true)
+		verifPoint("CachedLocation.Get.beforeLoad")
 		loc, err = sys.OpenLocation(ctx, name, checkExists)
 		if err != nil {
 			Log(WARN, ctx, "CachedLocation.Get", "name", name, "when", "OpenLocation", "error", err)
